@@ -1350,8 +1350,7 @@ Proof.
         rewrite Lh, N.ltb_irrefl, N.eqb_refl. rewrite dropN_app_len.
         destruct (b64dec_proper_prefix x Hwf l r H2 Hr) as [Hn|[k [Hk Hlt]]].
         -- rewrite Hn. exact I.
-        -- rewrite Hk. unfold truncated_ok. pose proof (lenN_takeN_le (takeN (3 * k) x) (bytes_to_int bo (takeN (hsize h) hd))) as L1.
-           rewrite takeN_length in L1. lia.
+        -- rewrite Hk. unfold truncated_ok. rewrite !takeN_length. lia.
     + (* one base64 string for header ++ data *)
       assert (Whx : wf (hd ++ x)) by (apply wf_app; split; assumption).
       destruct (b64dec_proper_prefix (hd ++ x) Whx p r Hp Hr) as [Hn|[k [Hk Hlt]]].
@@ -1365,4 +1364,85 @@ Proof.
         -- unfold truncated_ok. pose proof (lenN_takeN_le (dropN (hsize h) (takeN (3 * k) (hd ++ x)))
                                  (bytes_to_int bo (takeN (hsize h) (takeN (3 * k) (hd ++ x))))) as L1.
            rewrite dropN_length, Lt in L1. lia.
+Qed.
+
+(* ------------------------------------------------------------------------------------------------ *)
+(* tables: structure of the written csv file                                                          *)
+(* ------------------------------------------------------------------------------------------------ *)
+Definition clean (f : bytes) : Prop := f <> [] /\ ~ In comma f /\ ~ In newline f.
+
+Lemma split_go_app sep : forall f cur rest, ~ In sep f ->
+  split_go sep cur (f ++ rest) = split_go sep (rev f ++ cur) rest.
+Proof.
+  induction f as [|c f IH]; intros cur rest H; [reflexivity|].
+  cbn [app split_go]. destruct (N.eqb_spec c sep) as [E|E]; [exfalso; apply H; left; exact E|].
+  rewrite IH by (intro C; apply H; right; exact C). cbn [rev]. rewrite <- app_assoc. reflexivity.
+Qed.
+
+Lemma split_join sep : forall fs, fs <> [] -> Forall (fun f => ~ In sep f) fs -> split sep (join sep fs) = fs.
+Proof.
+  unfold split. induction fs as [|f fs IH]; intros Hne Hall; [congruence|].
+  apply Forall_cons_iff in Hall. destruct Hall as [Hf Hfs].
+  destruct fs as [|g fs].
+  - cbn [join]. rewrite <- (app_nil_r f) at 1. rewrite split_go_app by exact Hf.
+    cbn [split_go]. rewrite app_nil_r, rev_involutive. reflexivity.
+  - change (join sep (f :: g :: fs)) with (f ++ sep :: join sep (g :: fs)).
+    rewrite split_go_app by exact Hf. cbn [split_go]. rewrite N.eqb_refl.
+    rewrite app_nil_r, rev_involutive. f_equal. apply IH; [discriminate|exact Hfs].
+Qed.
+
+Lemma join_no_newline : forall line, Forall clean line -> ~ In newline (join comma line).
+Proof.
+  induction line as [|f line IH]; intros H; [simpl; tauto|].
+  apply Forall_cons_iff in H. destruct H as [[_ [_ Hn]] Hl].
+  destruct line as [|g line]; [exact Hn|].
+  change (join comma (f :: g :: line)) with (f ++ comma :: join comma (g :: line)).
+  intro C. apply in_app_or in C. destruct C as [C|[C|C]]; [exact (Hn C)|discriminate C|exact (IH Hl C)].
+Qed.
+
+Lemma join_nonempty : forall line, line <> [] -> Forall clean line -> join comma line <> [].
+Proof.
+  intros [|f line] Hne H; [congruence|]. apply Forall_cons_iff in H. destruct H as [[Hf _] _].
+  destruct line; cbn [join]; [exact Hf|]. destruct f; [congruence|discriminate].
+Qed.
+
+(* lines of the written file: every line, then one empty string after the final newline *)
+Lemma split_lines : forall lines, Forall (fun l => ~ In newline l) lines ->
+  split newline (concat (map (fun l => l ++ [newline]) lines)) = lines ++ [[]].
+Proof.
+  unfold split. induction lines as [|l lines IH]; intros H; [reflexivity|].
+  apply Forall_cons_iff in H. destruct H as [Hl Hls].
+  cbn [map concat]. rewrite <- app_assoc. rewrite split_go_app by exact Hl. cbn [app split_go]. rewrite N.eqb_refl.
+  rewrite app_nil_r, rev_involutive. cbn [app]. f_equal. apply IH. exact Hls.
+Qed.
+
+Lemma filter_nonempty_lines lines : Forall (fun r => r <> [] /\ Forall clean r) lines ->
+  filter nonempty (map (join comma) lines) = map (join comma) lines.
+Proof.
+  intros Hall. induction Hall as [|line lines [H1 H2] Hrest IH]; [reflexivity|]. cbn [map filter].
+  destruct (join comma line) eqn:E; [exfalso; exact (join_nonempty line H1 H2 E)|]. cbn [nonempty]. rewrite IH. reflexivity.
+Qed.
+
+Lemma split_join_lines lines : Forall (fun r => r <> [] /\ Forall clean r) lines ->
+  map (fun x => split comma (join comma x)) lines = lines.
+Proof.
+  intros Hall. induction Hall as [|line lines [H1 H2] Hrest IH]; [reflexivity|]. cbn [map]. rewrite IH. f_equal.
+  apply split_join; [exact H1|]. apply Forall_forall. intros f Hf. rewrite Forall_forall in H2. apply (H2 f Hf).
+Qed.
+
+(* C13, tables: what _write_table writes is split by the reader into the same names and the same cells *)
+Theorem csv_structure_roundtrip names rows :
+  names <> [] -> Forall clean names -> Forall (fun r => r <> [] /\ Forall clean r) rows ->
+  read_table (write_table names rows) = Some (names, rows).
+Proof.
+  intros Hn Hc Hr. unfold read_table, write_table.
+  assert (Hall : Forall (fun r => r <> [] /\ Forall clean r) (names :: rows)) by (constructor; [split; assumption|exact Hr]).
+  set (lines := names :: rows) in *.
+  rewrite <- (map_map (join comma) (fun l => l ++ [newline])).
+  rewrite split_lines.
+  2:{ apply Forall_forall. intros l Hl. apply in_map_iff in Hl. destruct Hl as [line [<- Hin]].
+      rewrite Forall_forall in Hall. apply join_no_newline. apply (Hall line Hin). }
+  rewrite filter_app. cbn [filter nonempty]. rewrite app_nil_r.
+  pose proof (filter_nonempty_lines lines Hall) as F. pose proof (split_join_lines lines Hall) as G.
+  unfold bytes in *. rewrite F, map_map, G. reflexivity.
 Qed.
